@@ -98,6 +98,16 @@ CLAIMS = {
          '(clamp(q + dquant, 1, 31) once per coded macroblock before its six blocks); and re-run on this tree: dequantisation form + INTRADC mapping (C11 A, C), the IDCT '
          'clauses (C10 A, B, C, E). Plane allocation is C13 P.',
     technique='const-table folding; call-site agreement over loop-index-normalised def-use terms (polynomial normal form, closed forms tabulated over the full u16 domain); dominance for update-before-use', ref='6/C02'),
+ 'C03': dict(
+    text='PARTIAL BY DESIGN: end-to-end equality of decoded P pictures with the H.263 reconstruction over all reference pictures is NOT decided statically. Decided are the '
+         'structural conditions of the mechanism list, each necessary: S read_sample clamps to the nearest edge sample; L lerp = (a+b+1) div 2 (tabulated over all 65536 pairs), '
+         'into_lerp_parameters = (floor(v/2), v odd) folded over -8192..8191; B the three interpolation forms of gather_block (integer / one half / both half with single '
+         'rounding +2 div 4) with exactly their selecting conditions, source = pos + (dx, dy) + (i, j), target cropping, and the 8-sample fast path only under the guard that '
+         'excludes clamping; G the six gather_block call sites (vector k at block offset k, chroma vector = average_sum_of_mvs of the four, Cb<-Cb, Cr<-Cr, row lengths of the '
+         'plane read, only for inter macroblocks); N every use of the reference goes through ok_or(..)?; U not-coded macroblock = Inter + zero vectors + no residual, early end '
+         'filled with Inter / zero vectors, gather after the macroblock loop and before the IDCT; and, re-run on this tree: vector reconstruction, chroma rounding, candidate '
+         'table, median, zero neighbours (C12 A, B, D, E, F) and the residual-add form of every IDCT arm (C10 C).',
+    technique='loop-index-normalised def-use terms vs written-out forms; path conditions (bit-slice DNF) for form selection; folding over finite domains; control-dependence guards; dominance / reachability for order', ref='6/C03'),
  'C06': dict(
     text='Static, every combination of header field values at once: each of the 15 header sub-parsers and decode_picture is abstracted from MIR into a decision '
          'table (R: every consuming reader call with its width and presence condition, in bitstream order; T: every leaf of every value it can return with the '
